@@ -69,8 +69,14 @@ def run_trainer(key):
     d = impl.dist()
     fam, D, N, lead, pat, opt, seed = (key[k] for k in ('family', 'D', 'N', 'lead', 'sal', 'opt', 'seed'))
     lead = tuple(lead)
+    if isinstance(opt, list):
+        opt = tuple(opt)
     cplx = fam in ('cgauss', 'watson', 'cacg', 'bingham')
     y = A.generic_data(seed, lead + (N, D), 'c08', fam, complex_=cplx)
+    if key.get('data') == 'collinear':
+        # exactly collinear frames (positive multiples of one vector per slice): r_bar = 1
+        r = A.rng(seed, 'collinear', fam, D, N, lead)
+        y = y[..., :1, :] * r.uniform(0.5, 3.0, size=lead + (N, 1))
     sal = make_sal(tuple(pat), lead, N)
     y.setflags(write=False)
     if sal is not None:
@@ -399,7 +405,7 @@ def run_alternation(key):
         except Exception as e:  # noqa
             return viol(f'iteration {i}: model parameters unusable: {e!r}')
         bad = EM.compare(model, imp_i, ref_i, rt, D, check_bingham=cb,
-                         what=f'{model} M-step of iteration {i}', weight_atol=2 * K * eps)
+                         what=f'{model} M-step of iteration {i}', weight_atol=0.0)
         if bad:
             return viol(bad)
         states += 1
@@ -449,7 +455,7 @@ def run_alternation(key):
             bad = EM.compare(model, EM.from_impl(model, final, shape), ref,
                              1e-4 if model == 'cwmm' else tol.ITER * 10, D,
                              what=f'{model} fit(iterations={n}) vs {n}-fold reference EM',
-                             weight_atol=2 * K * eps)
+                             weight_atol=0.0)
             if bad:
                 return viol(bad)
         transitions += n
@@ -482,8 +488,15 @@ def subchecks(tier, seed):
                             if pat[0] == 'grid' and lead and not thorough and fam != 'gauss':
                                 continue
                             for opt in opts:
-                                yield (fam, D, N, lead, pat, opt, seed)
-    subs.append(Sub('single_trainers', ('family', 'D', 'N', 'lead', 'sal', 'opt', 'seed'),
+                                yield (fam, D, N, lead, pat, opt, 'generic', seed)
+        for fam, opts in (('watson', (500.0, 5.0)), ('vmf', ((1e-10, 500.0), (2.0, 5.0)))):
+            for D in (2, 3, 5, 8):
+                for N in (2, 3, 7, 12, 31):
+                    for lead in ((), (2,), (3, 2)):
+                        for pat in (('none',), ('graded',)):
+                            for opt in opts:
+                                yield (fam, D, N, lead, pat, opt, 'collinear', seed)
+    subs.append(Sub('single_trainers', ('family', 'D', 'N', 'lead', 'sal', 'opt', 'data', 'seed'),
                     trainer_cases, run_trainer,
                     bound=dict(D=[2, 3, 5], N=['D+1', '2D', 12],
                                saliency='none, graded, every assignment of {0,.5,1,2} to N<=4 frames')))
